@@ -37,6 +37,7 @@ properties! {
     "C11" => c11,
     "C12" => c12,
     "C13" => c13,
+    "C14" => c14,
     "C06" => c06,
     "C19" => c19,
 }
